@@ -120,6 +120,21 @@ func verifC17(a *vh.Args) {
 	defer os.Remove(capf.Name())
 	os.Stdout = capf
 	os.Stderr = capf
+	// loggers created before this point (package-level ones, the standard library's default logger, the runtime) hold
+	// the original descriptors: point descriptors 1 and 2 themselves at the capture file as well, keeping a duplicate of
+	// the real standard output for the harness's own report
+	saved, err := syscall.Dup(1)
+	if err != nil {
+		vh.Fatal("dup: %v", err)
+	}
+	vh.ReportFd = saved
+	realStdout = os.NewFile(uintptr(saved), "real-stdout")
+	if err := syscall.Dup2(int(capf.Fd()), 1); err != nil {
+		vh.Fatal("dup2: %v", err)
+	}
+	if err := syscall.Dup2(int(capf.Fd()), 2); err != nil {
+		vh.Fatal("dup2: %v", err)
+	}
 	e := venum.New(fmt.Sprintf("logs:shard%d/%d", a.ShardI, a.ShardN), a)
 	phantom := net.ParseIP("192.122.190.77").To4()
 	gp := &pb.GenericTransportParams{RandomizeDstPort: proto.Bool(false)}
@@ -305,6 +320,8 @@ func verifC17(a *vh.Args) {
 	}
 	verifC17Other(e, a, only, capf)
 done:
-	os.Stdout = realStdout
+	_ = syscall.Dup2(saved, 1)
+	vh.ReportFd = 1
+	os.Stdout = os.NewFile(1, "/dev/stdout")
 	e.Finish()
 }
